@@ -370,7 +370,13 @@ pub fn run(prop: &str, tier: &str, out: Option<&Path>) -> i32 {
                 },
                 max_secs: if thorough { 90.0 } else { 40.0 },
             };
-            if prop == "C02" || prop == "C14" {
+            if prop == "C02" {
+                run_seq_with(prop, tier, cfgs, params, seq_assume, out, |col| {
+                    let (h, c) = crate::script::cursor_family(col);
+                    json!({"scripted_histories": h, "scripted_calls": c,
+                        "scripted_rule": "cursor sweep (harness/src/script.rs): slot cursor moved to every huge frame (first/last row) of its reserved tree by a targeted allocation, tree freed again (through the slot / globally / partly), then one allocation of every order with and without slot; every call judged by the reference model"})
+                })
+            } else if prop == "C14" {
                 run_seq(prop, tier, cfgs, params, seq_assume, out)
             } else {
                 // C04, C13: also at the end of / inside every explored interleaving
@@ -417,9 +423,33 @@ pub fn run(prop: &str, tier: &str, out: Option<&Path>) -> i32 {
                 total.merge(st);
                 col.merge(c);
             }
+            // allocators whose partial last tree starts a new cache line of the tree array
+            // (16 entries per line) or of the huge-entry tables: every single call (depth 2 in
+            // the thorough tier) from both initial states, both placements
+            let big = [
+                8 * TREE_FRAMES + HUGE_FRAMES + 1,
+                16 * TREE_FRAMES + 1,
+                16 * TREE_FRAMES + HUGE_FRAMES + 1,
+                32 * TREE_FRAMES + 7,
+            ];
+            let big_cl = [
+                ClassingSpec::simple(1),
+                ClassingSpec::custom("zs[(0,1),(1,0)]d0", &[(0, 1), (1, 0)], 0, PolicyKind::Simple),
+            ];
+            let big_cfgs = configs(&big, &big_cl, &BOTH);
+            let mut big_params = params.clone();
+            big_params.depth = if thorough { 2 } else { 1 };
+            big_params.max_secs = if thorough { 60.0 } else { 10.0 };
+            for flush_start in [false, true] {
+                big_params.probes.flush_start = flush_start;
+                let (st, c) = explore_all(&big_cfgs, &big_params);
+                total.merge(st);
+                col.merge(c);
+            }
             // construction modes incl. frames = 0 / empty buffers, both placements
             let mut f0 = frames.clone();
             f0.insert(0, 0);
+            f0.extend(big.iter().copied().filter(|&f| llfree::HUGE_ORDER <= 9 || f <= 2 * TREE_FRAMES));
             let (builds, calls) = crate::extras::c09_constructions(&f0, &cl, &mut col);
             // interleavings with the byte-exact bounds monitor
             let scs = crate::scenarios::generate(thorough as usize);
@@ -591,6 +621,12 @@ pub fn run(prop: &str, tier: &str, out: Option<&Path>) -> i32 {
             let mut opts = ilv_opts(thorough);
             opts.crash = true;
             opts.bound = if thorough { 2 } else { 1 };
+            if thorough && !small_geometry() {
+                // recovery of every crash image costs O(frames): on the large geometries the
+                // bound-2 crash exploration of a few scenarios ran for more than an hour
+                opts.bound = 1;
+                opts.max_secs = 60.0;
+            }
             let mut assume = seq_assume.clone();
             assume.push("crash model: the persistent image is a program-order prefix of the executed atomic writes to the lower buffer (no reordering, no torn words); crashes inside construction and double crashes are out of scope".into());
             run_seq_ilv(prop, tier, cfgs, params, scs, opts, assume, out)
@@ -664,7 +700,10 @@ pub fn run(prop: &str, tier: &str, out: Option<&Path>) -> i32 {
             }
             run_seq_with(prop, tier, cfgs, params, seq_assume, out, |col| {
                 let (builds, calls) = crate::extras::c09_constructions(&f0, &cl, col);
+                let (sh, sc) = crate::script::cursor_family(col);
                 json!({"construction_modes_enumerated": builds, "calls_after_construction": calls,
+                    "scripted_histories": sh, "scripted_calls": sc,
+                    "scripted_rule": "cursor sweep (harness/src/script.rs): 5-6 call histories that move a slot's row cursor to every huge frame of its reserved tree, free the tree again and allocate every order with and without slot",
                     "construction_rule": "every frame count of the list (and 0) x classing x {FreeAll, AllocAll, Recover over zero/ones/free/alloc bytes, None}, then one call of every kind"})
             })
         }
